@@ -199,11 +199,13 @@ package fstxn
 // wrote, releases the locks and returns the allocations to the allocators.
 //@ spec (*FsTxn).Abort
 //@   props C09 C03 C05 C06 C10
-//@   requires opOpen(op) && dirtyInv()
+// (aborting twice is tolerated only when the first abort had nothing to give back)
+//@   requires opInv(op) && curop == base(op) && listsValid(op.Atxn) && dirtyInv()
+//@   requires [A1-once] lastst == 0 || (lastst == 3 && len(op.Atxn.allocInums) == 0 && len(op.Atxn.allocBnums) == 0) @C09 @C05
 //@   requires [A2-rollback] forall i uint64 :: dirtyinum[i] ==> wroteinum[i] @C09 @C10
 //@   preserves [allocInv] allocInv() @C15 @C04
 //@   allocates buf.Buf
 //@   modifies held, lastst, abits, dirtyinum, cache.Cslot.Obj, map[uint64]*inode.Inode
 //@   ghostexit lastst = 3
-//@   ensures [A1-aborted] lastst == 3 @C09
+//@   ensures [A1-aborted] lastst == 3 && opInv(op) @C09
 //@   ensures [L2-released] noLocks() && dirtyInv() @C03 @C06
